@@ -18,8 +18,8 @@ using fam::Item;
 
 namespace {
 bool close(double a, double b, double rel) { return a == b || std::fabs(a - b) <= rel * std::max(std::fabs(a), std::fabs(b)); }
-enum { A_BATCH = 1, A_MERGE = 2, A_SERDE = 3, A_QUERY = 4, A_REFUSED = 5, A_RESET = 6, A_COPY = 7, A_NAN = 8, A_COMPRESS = 9, A_UNION = 10 };
-const char* a_step_name(int k) { static const char* n[] = { "?", "batch", "merge", "serde", "query", "refused_op", "reset", "copy", "nan", "compress", "union" }; return (k >= 1 && k <= 10) ? n[k] : "step"; }
+enum { A_BATCH = 1, A_MERGE = 2, A_SERDE = 3, A_QUERY = 4, A_REFUSED = 5, A_RESET = 6, A_COPY = 7, A_NAN = 8, A_COMPRESS = 9, A_UNION = 10, A_ALLOCFAIL = 11 };
+const char* a_step_name(int k) { static const char* n[] = { "?", "batch", "merge", "serde", "query", "refused_op", "reset", "copy", "nan", "compress", "union", "alloc_fail" }; return (k >= 1 && k <= 11) ? n[k] : "step"; }
 
 // restore through the stream reader (chunked refills); the reader must take exactly the image
 template<typename V, typename De> auto restore_stream(Ctx& ctx, const V& b, i64 salt, const char* prop, De de) -> decltype(de(std::declval<std::istream&>())) {
@@ -753,6 +753,21 @@ template<typename T, typename K> struct DnExec {
           if (after_update != before) ctx.fail(fp("refused-update-changed-the-sketch"), "before " + before.substr(0, 60) + " after " + after_update.substr(0, 60));
           if (snapshot() != before) ctx.fail(fp("refused-merge-changed-the-sketch"), "");
           ctx.fault("refused_op"); break; }
+        case A_ALLOCFAIL: {
+          // an allocation fails inside update() on the path that cannot compact (num_retained below k times a lower bound of the level count): the caller catches
+          // bad_alloc and keeps the sketch. Either outcome is legal (point taken or not); the model follows get_n(), and every stated invariant is judged on that state.
+          u64 maxw = 1; for (auto it = n.sk->begin(); it != n.sk->end(); ++it) maxw = std::max<u64>(maxw, (*it).second);
+          int lv = 1; while ((1ULL << (lv - 1)) < maxw) lv++;
+          if (n.sk->get_num_retained() + 1 >= static_cast<u64>(k) * static_cast<u64>(lv)) break;
+          std::vector<T> x = point(s.b * 100000 + next++); V v(x.begin(), x.end(), talloc<T>(1)); const u64 n0 = n.sk->get_n(); bool threw = false;
+          alloc_state().fail_after = (s.c >> 1) & 1;
+          try { if (s.c & 1) n.sk->update(std::move(v)); else n.sk->update(v); } catch (const std::bad_alloc&) { threw = true; }
+          alloc_state().fail_after = -1;
+          if (threw) { ctx.fault("alloc_fail_in_update"); ctx.nontrivial = true; }
+          const u64 n1 = n.sk->get_n();
+          if (!threw) { n.pts.push_back(x); break; }
+          if (n1 == n0 + 1) { n.pts.push_back(x); ctx.probe("failed_update_counted"); } else ctx.probe("failed_update_not_counted");
+          break; }
         case A_COPY: { Node& d = nodes[static_cast<size_t>(s.b) % nodes.size()]; if (&d != &n) { d.sk.reset(new S(*n.sk)); d.pts = n.pts; d.merged = n.merged; } break; }
         default: break;
       }
@@ -766,7 +781,7 @@ struct C20World: World {
   const char* step_name(int k) const override { return a_step_name(k); }
   std::string family_of(const Plan& p) const override { return p.cfg.empty() || p.cfg[0] == 0 ? "density<double>" : "density<float>"; }
   Plan generate(u64 run_seed, int tier) override { Rng rc(run_seed, "cfg");
-    return gen_generic(run_seed, tier, { static_cast<i64>(rc.below(2)), static_cast<i64>(rc.below(2)), rc.range(2, 16), rc.range(1, 4), rc.chance(1, 5) ? 1 + static_cast<i64>(rc.below(3)) : 0 }, 3, { {A_BATCH, 50}, {A_MERGE, 22}, {A_SERDE, 8}, {A_REFUSED, 6}, {A_COPY, 6}, {A_QUERY, 8} }, 400); }
+    return gen_generic(run_seed, tier, { static_cast<i64>(rc.below(2)), static_cast<i64>(rc.below(2)), rc.range(2, 16), rc.range(1, 4), rc.chance(1, 5) ? 1 + static_cast<i64>(rc.below(3)) : 0 }, 3, { {A_BATCH, 50}, {A_MERGE, 22}, {A_SERDE, 8}, {A_REFUSED, 6}, {A_COPY, 6}, {A_QUERY, 8}, {A_ALLOCFAIL, 8} }, 400); }
   void execute(const Plan& p, Ctx& ctx) override {
     alloc_state().reset_counters(); alloc_state().budget = static_cast<size_t>(1) << 31;
     const int sel = static_cast<int>(p.cfg[0] * 2 + p.cfg[1]);
